@@ -300,9 +300,11 @@ Proof.
 Qed.
 
 (* ------------------------------------------------------------------ max / min along an axis *)
-Definition ext_dom (better : R -> R -> bool) (sx sy : tshape) (dim : nat) (xs : list (list R)) : Prop :=
-  forall e, In e (axis_red sx sy dim) -> exists s, In s (snd e) /\
+Definition redx_dom (better : R -> R -> bool) (p : red) (xs : list (list R)) : Prop :=
+  forall e, In e p -> snd e = [] \/ exists s, In s (snd e) /\
     forall s', In s' (snd e) -> s' <> s -> better (nth s (nth 0 xs []) 0) (nth s' (nth 0 xs []) 0) = true.
+Definition ext_dom (better : R -> R -> bool) (sx sy : tshape) (dim : nat) : list (list R) -> Prop :=
+  redx_dom better (axis_red sx sy dim).
 Definition open_better (better : R -> R -> bool) : Prop :=
   forall (u v : R -> R), continuous u 0 -> continuous v 0 -> better (u 0) (v 0) = true ->
     locally 0 (fun t => better (u t) (v t) = true).
@@ -327,14 +329,20 @@ Proof.
   - destruct Hin as [->|Hin]; [congruence|]. apply IH; [exact Hin|exact Hs|]. intros s' Hs' N. apply Ho; [right; exact Hs'|exact N].
 Qed.
 
-Lemma ext_deriv better sx sy dim :
+Lemma redx_deriv better dflt sx sy ok p :
   (forall a b, better a b = true -> better b a = false) -> (forall a, better a a = false) -> open_better better ->
-  desc_deriv (ext_desc better sx sy dim) (ext_dom better sx sy dim).
+  desc_deriv (redx_desc better dflt sx sy ok p) (redx_dom better p).
 Proof.
-  intros Hasym Hirr Hopen xs dxs Hx _ Hdom r. cbn [ext_desc d_fw d_jvp]. apply cderiv_single. rewrite !hd_nth0. intro i.
-  set (p := axis_red sx sy dim) in *. destruct (lt_dec i (length p)) as [Hi|Hi].
+  intros Hasym Hirr Hopen xs dxs Hx _ Hdom r. cbn [redx_desc d_fw d_jvp]. apply cderiv_single. rewrite !hd_nth0. intro i.
+  destruct (lt_dec i (length p)) as [Hi|Hi].
   - set (e := nth i p (0%nat, [])). assert (He : In e p) by (apply nth_In; exact Hi).
-    destruct (Hdom e He) as (s & Hs & Hbest). set (g := snd e) in *.
+    rewrite (nth_map_lt _ p i 0 (0%nat, []) Hi). fold e.
+    destruct (Hdom e He) as [Hemp|(s & Hs & Hbest)].
+    { (* no candidate: the stored value is the constant dflt, nothing is routed *)
+      rewrite Hemp. cbn [first_eq find].
+      apply (is_derive_ext (fun _ => dflt)); [|apply (is_derive_const dflt 0)].
+      intro t. rewrite (nth_map_lt _ p i 0 (0%nat, []) Hi). fold e. rewrite Hemp. reflexivity. }
+    set (g := snd e) in *.
     set (x := fun t => nth 0 (xs t) []).
     assert (Hcont : forall s0, continuous (fun t => nth s0 (x t) 0) 0).
     { intro s0. apply (ex_derive_continuous (fun t => nth s0 (x t) 0) 0). exists (nth s0 (nth 0 dxs []) 0). apply (Hx 0%nat s0). }
@@ -345,12 +353,11 @@ Proof.
       - apply (filter_imp (fun t => better (nth s (x t) 0) (nth s' (x t) 0) = true)); [intros t Ht _; exact Ht|].
         apply (Hopen (fun t => nth s (x t) 0) (fun t => nth s' (x t) 0) (Hcont s) (Hcont s')). apply Hbest; assumption. }
     assert (Hscan : forall t, (forall s', In s' g -> s' <> s -> better (nth s (x t) 0) (nth s' (x t) 0) = true) ->
-                       scan better (gvals (x t) g) = nth s (x t) 0).
-    { intros t Ht. apply (scan_unique better Hasym Hirr).
+                       scan better dflt (gvals (x t) g) = nth s (x t) 0).
+    { intros t Ht. apply (scan_unique better dflt Hasym Hirr).
       - unfold gvals. apply (in_map (fun s0 => nth s0 (x t) 0)). exact Hs.
       - intros v Hv. unfold gvals in Hv. apply in_map_iff in Hv. destruct Hv as (s' & <- & Hs').
         destruct (Nat.eq_dec s' s) as [->|N]; [left; reflexivity|right; apply Ht; assumption]. }
-    rewrite (nth_map_lt _ p i 0 (0%nat, []) Hi). fold e g.
     assert (H0 : forall s', In s' g -> s' <> s -> better (nth s (x 0) 0) (nth s' (x 0) 0) = true) by (apply (locally_singleton _ _ Hloc)).
     change (nth 0 (xs 0) []) with (x 0). rewrite (Hscan 0 H0).
     assert (Ef : first_eq g (x 0) (nth s (x 0) 0) = Some s).
@@ -364,6 +371,10 @@ Proof.
   - rewrite nth_overflow by (rewrite map_length; lia). apply (is_derive_ext (fun _ => 0)); [|apply (is_derive_const 0 0)].
     intro t. rewrite nth_overflow by (rewrite map_length; lia). reflexivity.
 Qed.
+Lemma ext_deriv better sx sy dim :
+  (forall a b, better a b = true -> better b a = false) -> (forall a, better a a = false) -> open_better better ->
+  desc_deriv (ext_desc better sx sy dim) (ext_dom better sx sy dim).
+Proof. apply redx_deriv. Qed.
 Lemma open_rgt : open_better rgt.
 Proof.
   intros u v Hu Hv H. apply rgt_true in H.
@@ -668,6 +679,8 @@ Definition real_dom (o : rop) (xs : list (list R)) : Prop :=
   | RLogSumExp sx sy dim => True
   | RSCE sx sy dim => sce_dom sx sy dim xs
   | RSparseSCE sx sp ids dim => True
+  | RMaxPool sx sy w0 w1 p0 p1 s0 s1 =>      (* every non-empty window attains its maximum once *)
+      redx_dom rgt (pool2d_red sx sy w0 w1 p0 p1 s0 s1) xs
   end.
 
 Lemma un_slope u x : un_dom u x -> is_derive (un_fw u) x (un_bw u x (un_fw u x) 1).
@@ -731,7 +744,7 @@ Qed.
 (* the tangent of every operator of real_family is the derivative of its forward value, on its smooth domain *)
 Theorem jvp_is_derivative (o : rop) : desc_deriv (describeR o) (real_dom o).
 Proof.
-  destruct o as [c|u s|c s k|s|s|s k|b sa sb|sx sy dim|sx sy dim|sx sy dim|sx sy dim|sx sp ids dim]; cbn [describeR real_dom].
+  destruct o as [c|u s|c s k|s|s|s k|b sa sb|sx sy dim|sx sy dim|sx sy dim|sx sy dim|sx sp ids dim|sx sy w0 w1 p0 p1 s0 s1]; cbn [describeR real_dom].
   - apply core_deriv.
   - apply (uny_deriv s (un_fw u) (un_bw u) (un_dom u)). apply un_slope.
   - apply (uny_deriv s (fun x => k_fw c x k) (fun x y g => k_bw c x y g k) (k_dom c k)). apply k_slope.
@@ -747,6 +760,7 @@ Proof.
   - apply lse_deriv.
   - apply sce_deriv.
   - apply ssce_deriv.
+  - apply (redx_deriv rgt flt_lowest sx sy _ _ rgt_asym rgt_irrefl open_rgt).
 Qed.
 
 (* readable instances: one operand curve x with derivative dx at 0 (e.g. the line x0 + t dx) *)
